@@ -183,7 +183,7 @@ func (a *argMaker) args(fname string, ft reflect.Type, skipRecv bool, items []je
 			}
 			out = append(out, reflect.ValueOf(m))
 		case pt == tOptions:
-			o := jen.Options{Open: []string{"", "(", "{", "<"}[a.r.Intn(4)], Close: []string{"", ")", "}", ">"}[a.r.Intn(4)], Separator: []string{"", ",", ";", "|"}[a.r.Intn(4)], Multi: a.r.Intn(2) == 0}
+			o := jen.Options{Open: []string{"", "(", "{", "<"}[a.r.Intn(4)], Close: []string{"", ")", "}", ">"}[a.r.Intn(4)], Separator: []string{"", ",", ";", "|", "\n", " ; ", " "}[a.r.Intn(7)], Multi: a.r.Intn(2) == 0}
 			if a.r.Intn(6) == 0 {
 				o = jen.Options{} // the zero value: a plain juxtaposition of the items
 			}
@@ -683,6 +683,13 @@ func c14Construct(r *mon.Run, ai *apiInfo, name string, rep int64) {
 		pp, what := mon.Guard(func() {
 			e1 = st.Render(&b1)
 			e2 = st.RenderWithFile(&b2, jen.NewFile(""))
+			// a File's NoFormat setting is about File.Render: a fragment rendered with such a File is formatted all the same
+			nf := jen.NewFile("")
+			nf.NoFormat = true
+			var b3 bytes.Buffer
+			if e3 := st.RenderWithFile(&b3, nf); (e3 == nil) != (e2 == nil) || (e3 == nil && b3.String() != b2.String()) {
+				r.Violate("render-entry-points-differ", c, "%s: RenderWithFile(fresh File) gives %q (error %v) but RenderWithFile(fresh File with NoFormat) gives %q (error %v)", name, mon.Trunc(b2.String(), 200), e2, mon.Trunc(b3.String(), 200), e3)
+			}
 		})
 		if pp {
 			r.Violate("construct-panic", c, "%s: Render panicked: %s", name, what)
